@@ -20,7 +20,7 @@ def run_prop(prop, variants):
         env = dict(os.environ); env["VERIF_REPO"] = wt
         tier = os.environ.get("SEED_TIER", "quick")
         t0 = time.time()
-        rc, o = sh("./check %s --tier %s --no-evidence" % (prop, tier), V, env)
+        rc, o = sh("./check %s --tier %s --no-evidence%s" % (prop, tier, " --fail-fast" if os.environ.get("SEED_FAIL_FAST", "1") == "1" else ""), V, env)
         sh("git reset -q; git checkout -- . ; git clean -fdq -e target", wt)
         fails = re.findall(r"^\s+\[\w+\] (\S+)\s+(fail|inconclusive|infra)\s", o, re.M)
         cex = re.findall(r"counterexample: harness (\S+): (.*?) @", o)
